@@ -82,7 +82,7 @@ add('C05','panic-string-in-Add',ME,'			return fmt.Errorf("该请求方法 %s 已
 add('C05','drop-path-nonempty',ND,"	if len(n.indexes) > 0 && len(ctx.Path) > 0 {","	if len(n.indexes) > 0 {",'violation:C05.R4')
 add('C05','drop-minus-one-hosts',MA,"	if i := strings.LastIndexByte(h, ':'); i != -1 && validOptionalPort(h[i:]) {","	if i := strings.LastIndexByte(h, ':'); validOptionalPort(h[i:]) {",'violation:C05.R4')
 add('C05','drop-loc-nil-test',SG,"		return locs != nil && locs[0] == 0 && locs[1] == len(pattern)","		return locs[0] == 0 && locs[1] == len(pattern)",'violation:C05.R4')
-add('C05','drop-index-guard-match',SG,"			} else if index := strings.Index(ctx.Path, seg.Suffix); index >= 0 {","			} else if index := strings.Index(ctx.Path, seg.Suffix); index != 0 {",'violation:C05.R4')
+add('C05','drop-index-guard-match',SG,"} else if index := strings.Index(ctx.Path, seg.Suffix); index >= 0 {","} else if index := strings.Index(ctx.Path, seg.Suffix); index != 0 {",'violation:C05.R4')
 add('C05','drop-clear',ND,"	clear(n.indexes)\n","",'violation:C05.R2')
 add('C05','benign-neq-minus-one',MA,"i != -1 && validOptionalPort(h[i:])","i >= 0 && validOptionalPort(h[i:])",'silent')
 add('C05','benign-len-neq-zero',ND,"	if len(n.indexes) > 0 && len(ctx.Path) > 0 {","	if len(n.indexes) != 0 && ctx.Path != \"\" {",'silent')
@@ -102,7 +102,7 @@ add('C06','benign-local-lock-alias',TR,"func (tree *Tree[T]) Clean(prefix string
 
 # ---------------- C07
 addm('C07','global-cache-in-getNode',[(TR,"var _ = 0","var _ = 0"),],'silent') if False else None
-add('C07','unsynchronised-global-cache',TR,"// 获取指定的节点，若节点不存在，则在该位置生成一个新节点。\nfunc (tree *Tree[T]) getNode(pattern string) (*node[T], error) {\n","var seenPatterns = map[string]int{}\n\n// 获取指定的节点，若节点不存在，则在该位置生成一个新节点。\nfunc (tree *Tree[T]) getNode(pattern string) (*node[T], error) {\n	seenPatterns[pattern]++\n",'violation:C07.R1')
+add('C07','unsynchronised-global-cache',TR,"// Find 查找匹配的节点\nfunc (tree *Tree[T]) Find(pattern string) *node[T] { return tree.node.find(pattern) }","var seenPatterns = map[string]int{}\n\n// Find 查找匹配的节点\nfunc (tree *Tree[T]) Find(pattern string) *node[T] {\n	seenPatterns[pattern]++\n	return tree.node.find(pattern)\n}",'violation:C07.R1')
 add('C07','memo-write-outside-mutex',ME,"func buildMethodIndexes(index int) {\n	methodIndexesLocker.Lock()\n	defer methodIndexesLocker.Unlock()\n","func buildMethodIndexes(index int) {\n	methodIndexesLocker.RLock()\n	defer methodIndexesLocker.RUnlock()\n",'violation:C07.R1')
 add('C07','memo-read-outside-mutex',ME,"func getMethodIndexEntity(index int) methodIndexEntity {\n	methodIndexesLocker.RLock()\n	defer methodIndexesLocker.RUnlock()\n	return methodIndexes[index]","func getMethodIndexEntity(index int) methodIndexEntity {\n	return methodIndexes[index]",'violation:C07.R1')
 add('C07','return-global-without-clone','mux.go',"func Methods() []string { return slices.Clone(tree.Methods) }","func Methods() []string { return tree.Methods }",'violation:C07.R2')
@@ -120,10 +120,10 @@ add('C08','drop-head-install',ME,"		if m == http.MethodGet {\n			n.handlers[http
 add('C08','head-without-middlewares',ME,"n.handlers[http.MethodHead] = ApplyMiddleware(h, http.MethodHead, pattern, n.root.Name(), ms...)","n.handlers[http.MethodHead] = ApplyMiddleware(h, http.MethodHead, pattern, n.root.Name())",'violation:C08.R1')
 add('C08','drop-head-delete',TR,"			case http.MethodGet:\n				delete(child.handlers, http.MethodHead)\n				fallthrough\n","",'violation:C08.R2')
 add('C08','head-removable-by-name',TR,"case http.MethodOptions, http.MethodHead, methodNotAllowed:","case http.MethodOptions, methodNotAllowed:",'violation:C08.R3')
-add('C08','drop-head-rejection',ME,"if m == http.MethodOptions || m == http.MethodHead || (n.root.hasTrace && m == http.MethodTrace) {","if m == http.MethodOptions || (n.root.hasTrace && m == http.MethodTrace) {",'violation:C08.R4')
+add('C08','drop-head-rejection',ME,"if m == http.MethodOptions || m == http.MethodHead || (tree.hasTrace && m == http.MethodTrace) {","if m == http.MethodOptions || (tree.hasTrace && m == http.MethodTrace) {",'violation:C08.R4')
 add('C08','drop-method-table-check',ME,"		if _, found := methodIndexMap[m]; !found {\n			return fmt.Errorf(\"该请求方法 %s 不被支持\", m)\n		}\n","",'violation:C08.R4')
-add('C08','validate-only-first',ME,"	for i, m := range methods { // 先验证所有的 methods，保证出错时不会修改任何内容。","	for i, m := range methods[:min(1, len(methods))] { // 先验证所有的 methods，保证出错时不会修改任何内容。",'violation:C08.R4')
-add('C08','trace-always-refused',ME,"(n.root.hasTrace && m == http.MethodTrace)","(m == http.MethodTrace)",'violation:C08.R4')
+add('C08','validate-only-first',ME,"func (tree *Tree[T]) checkMethods(n *node[T], methods []string) error {\n	for i, m := range methods {","func (tree *Tree[T]) checkMethods(n *node[T], methods []string) error {\n	for i, m := range methods[:min(1, len(methods))] {",'violation:C08.R4')
+add('C08','trace-always-refused',ME,"(tree.hasTrace && m == http.MethodTrace)","(m == http.MethodTrace)",'violation:C08.R4')
 add('C08','head-writer-forwards',RO,"	resp.Header().Set(header.ContentLength, strconv.Itoa(resp.size))\n	return l, nil","	resp.Header().Set(header.ContentLength, strconv.Itoa(resp.size))\n	return resp.ResponseWriter.Write(bs)",'violation:C08.R5')
 add('C08','content-length-of-last-write',RO,"strconv.Itoa(resp.size))","strconv.Itoa(l))",'violation:C08.R5')
 add('C08','head-wrapper-on-every-method',RO,"		if req.Method == http.MethodHead {\n			w = &headResponse{ResponseWriter: w}\n		}","		if req.Method != http.MethodGet {\n			w = &headResponse{ResponseWriter: w}\n		}",'violation:C08.R5')
@@ -207,7 +207,7 @@ add('C15','hasprefix-of-stripped',MA,"		if strings.HasPrefix(p, ver) {\n			vv :=
 add('C15','record-with-slash',MA,"				ctx.Set(v.paramName, vv)\n			}\n\n			return true","				ctx.Set(v.paramName, ver)\n			}\n\n			return true",'violation:C15.R1')
 add('C15','trim-full-version',MA,"			r.URL.Path = strings.TrimPrefix(p, vv)","			r.URL.Path = strings.TrimPrefix(p, ver)",'violation:C15.R1')
 add('C15','skip-trailing-slash-normalisation',MA,"		if v[len(v)-1] != '/' {\n			v += \"/\"\n		}\n		version[i] = v","		version[i] = v",'violation:C15.R1')
-add('C15','header-accepts-prefix',MA,"			if vv == ver {","			if strings.HasPrefix(ver, vv) {",'violation:C15.R3')
+add('C15','header-accepts-prefix',MA,"		if vv == ver {","		if strings.HasPrefix(ver, vv) {",'violation:C15.R3')
 add('C15','header-parse-error-accepts',MA,"		v.errlog(err)\n		return false","		v.errlog(err)\n		return len(v.versions) == 0",'violation:C15.R3')
 add('C15','benign-rename',MA,"			vv := ver[:len(ver)-1]\n\n			r.URL.Path = strings.TrimPrefix(p, vv)","			vv := ver[:len(ver)-1]\n			r.URL.Path = strings.TrimPrefix(p, vv)",'silent')
 
@@ -226,10 +226,10 @@ for e in C['C16']:
         e['edits']=[{"file":RO,"old":old,"new":new},{"file":RO,"old":'import (\n	"net/http"','new':'import (\n	"fmt"\n	"net/http"'}]
 
 # ---------------- C17
-add('C17','one-pass-install',ME,"			return fmt.Errorf(\"该请求方法 %s 已经存在\", m)\n		}\n	}\n\n	for _, m := range methods {\n		if m == http.MethodGet {","			return fmt.Errorf(\"该请求方法 %s 已经存在\", m)\n		}\n\n		if m == http.MethodGet {",'violation:C17.R1')
-add('C17','drop-presence-test',ME,"		if _, found := n.handlers[m]; found || slices.Contains(methods[:i], m) {\n			return fmt.Errorf(\"该请求方法 %s 已经存在\", m)\n		}\n","		_ = i\n",'violation:C17.R2')
+add('C17','validate-after-nodes',TR,"	if err := tree.checkMethods(tree.Find(pattern), methods); err != nil {\n		return err\n	}\n\n	n, err := tree.node.getNode(segs)\n	if err != nil {\n		return err\n	}\n","	n, err := tree.node.getNode(segs)\n	if err != nil {\n		return err\n	}\n\n	if err := tree.checkMethods(n, methods); err != nil {\n		return err\n	}\n",'violation:C17.R1')
+add('C17','drop-presence-test',ME,"		if n != nil {\n			if _, found := n.handlers[m]; found {\n				return fmt.Errorf(\"该请求方法 %s 已经存在\", m)\n			}\n		}\n","",'violation:C17.R2')
 add('C17','ignore-add-error',RO,"	if err := r.tree.Add(pattern, h, slices.Concat(m, r.ms), methods...); err != nil {\n		panic(err)\n	}","	_ = r.tree.Add(pattern, h, slices.Concat(m, r.ms), methods...)",'violation:C17.R3')
-add('C17','summary-before-validation',ME,"	for i, m := range methods { // 先验证所有的 methods，保证出错时不会修改任何内容。","	n.root.buildMethods(1, methods...)\n	for i, m := range methods { // 先验证所有的 methods，保证出错时不会修改任何内容。",'violation:C17.R1')
+add('C17','summary-before-validation',TR,"	if err := tree.checkMethods(tree.Find(pattern), methods); err != nil {","	tree.buildMethods(1, methods...)\n	if err := tree.checkMethods(tree.Find(pattern), methods); err != nil {",'violation:C17.R1')
 add('C17','benign-error-var',RO,"	if err := r.tree.Add(pattern, h, slices.Concat(m, r.ms), methods...); err != nil {\n		panic(err)\n	}","	err := r.tree.Add(pattern, h, slices.Concat(m, r.ms), methods...)\n	if err != nil {\n		panic(err)\n	}",'silent')
 
 # ---------------- C18
@@ -238,7 +238,7 @@ add('C18','header-after-status',TC,"		w.Header().Set(header.ContentType, header.
 add('C18','raw-dump',TC,"w.Write([]byte(html.EscapeString(string(text))))","w.Write(text)",'violation:C18.R5')
 add('C18','always-dump-body',TC,"httputil.DumpRequest(r, body)","httputil.DumpRequest(r, true)",'violation:C18.R5')
 add('C18','tree-summary-without-trace',ME,"	if tree.hasTrace {\n		tree.node.methodIndex += methodIndexMap[http.MethodTrace]\n	}\n","",'violation:C18.R2')
-add('C18','trace-always-refused',ME,"(n.root.hasTrace && m == http.MethodTrace)","(m == http.MethodTrace)",'violation:C18.R3')
+add('C18','trace-always-refused',ME,"(tree.hasTrace && m == http.MethodTrace)","(m == http.MethodTrace)",'violation:C18.R3')
 for e in C['C18']:
     if e['name']=='raw-dump':
         e.pop('file'); old=e.pop('old'); new=e.pop('new')
